@@ -82,9 +82,42 @@ def seeded():
     return "\n".join(out)
 
 
+def asbuilt(pid):
+    ev = os.path.join(V, "evidence", "%s.json" % pid)
+    mod = os.path.join(V, "engine", "raftlint", "rules", "%s.py" % pid.lower())
+    if not os.path.exists(ev) or not os.path.exists(mod):
+        return "*[as built]* not claimed (see section 5)."
+    e = json.load(open(ev))
+    doc = (e["coverage"].get("explanation") or "").strip().replace("\n", " ")
+    per = OrderedDict()
+    for s_ in e["coverage"]["samples"]:
+        r = per.setdefault(s_["rule"], {"n": 0, "hold": 0, "sites": []})
+        r["n"] += 1
+        if s_["verdict"] == "holds":
+            r["hold"] += 1
+        else:
+            r["sites"].append("%s (%s)" % (s_["site"], s_["verdict"]))
+    kf = json.load(open(os.path.join(V, "known_findings.json")))
+    ids = sorted(set(f["id"] for f in kf["findings"] if f["property"] == pid))
+    fixed = sorted(set("%s@%s" % (f["id"], f["commit"]) for f in kf.get("fixed", []) if f["property"] == pid))
+    lines = ["> **As built (`rules/%s.py`).** %s" % (pid.lower(), doc), ">"]
+    lines.append("> Rules and instances on the current tree: " + "; ".join("%s %d/%d" % (r, v["hold"], v["n"]) for r, v in per.items()) + ".")
+    if ids:
+        lines.append("> Open findings: %s (%s)." % (", ".join(ids), "; ".join(x for v in per.values() for x in v["sites"])[:600]))
+    if fixed:
+        lines.append("> Fixed in /repo: %s." % ", ".join(fixed))
+    pts = sorted(glob.glob(os.path.join(V, "selftest", pid, "*.patch")))
+    if pts:
+        lines.append("> Self-tests: %d patches (%s)." % (len(pts), ", ".join(os.path.basename(x)[:-6] for x in pts)[:700]))
+    return "\n".join(lines)
+
+
 def main():
     p = os.path.join(V, "DESIGN.md")
     s = open(p).read()
+    for pid in re.findall(r"<!-- BEGIN:asbuilt-(C\d\d) -->", s):
+        b, e = "<!-- BEGIN:asbuilt-%s -->" % pid, "<!-- END:asbuilt-%s -->" % pid
+        s = s[:s.index(b) + len(b)] + "\n" + asbuilt(pid) + "\n" + s[s.index(e):]
     for name, fn in (("inventory", inventory), ("findings", findings), ("selftests", selftests), ("seeded", seeded)):
         b, e = "<!-- BEGIN:%s -->" % name, "<!-- END:%s -->" % name
         if b in s and e in s:
